@@ -434,7 +434,8 @@ class PrettyPrinter:
                 else:
                     value = self.check_options_list(options_list, value)
 
-        if isinstance(value, list):
+        if isinstance(value, (list, tuple)):
+            # a tuple set through the dictionary API, e.g. d["size"] = (256, 256), is written as a list
             new_values = []
 
             for v in value:
